@@ -389,10 +389,12 @@ pub fn generate(prop: &str, tier: &str, seed: u64, out: &mut impl Write) {
                 w!("reqenc {s} {} {}", req_bytes(&m).len(), fill_tok(r));
                 w!("reqdec {}", hex_of(&req_bytes(&m)));
                 w!("#@ C03 req {s}");
+                w!("specreq {s}");
                 let (m, s) = gen_rsp(r, false);
                 w!("pduenc {s} {} {}", crate_rsp_len(&m), fill_tok(r));
                 if let RspM::Exc(..) = m { w!("excdec {}", hex_of(&rsp_bytes(&m))); } else { w!("rspdec {}", hex_of(&rsp_bytes(&m))); }
                 w!("#@ C03 rsp {s}");
+                w!("specrsp {s}");
             }
         }
         "C04" | "C05" => {
@@ -435,7 +437,7 @@ pub fn generate(prop: &str, tier: &str, seed: u64, out: &mut impl Write) {
         }
         "C06" => {
             w!("crc -"); w!("#@ C06 -");
-            for a in 0..=255u32 { w!("crc {a:02X}"); w!("#@ C06 {a:02X}"); }
+            for a in 0..=255u32 { w!("crc {a:02X}"); w!("speccrc {a:02X}"); w!("#@ C06 {a:02X}"); }
             for a in 0..=255u32 { for b in 0..=255u32 { w!("crc {a:02X}{b:02X}"); if (a * 256 + b) % 7 == 0 { w!("#@ C06 {a:02X}{b:02X}"); } } }
             if tier == "thorough" {
                 // every (16-bit state, byte) transition reachable in three bytes: sampled third byte per pair
@@ -445,6 +447,7 @@ pub fn generate(prop: &str, tier: &str, seed: u64, out: &mut impl Write) {
                 let n = match r.below(4) { 0 => r.below(16), 1 => 250 + r.below(12), 2 => r.below(600), _ => 3 + r.below(60) };
                 let b = r.bytes(n);
                 w!("crc {}", hex_of(&b));
+                w!("speccrc {}", hex_of(&b));
                 w!("#@ C06 {}", hex_of(&b));
             }
             for n in [255usize, 256, 257, 511, 512, 513, 1000] {
@@ -774,6 +777,7 @@ pub fn generate(prop: &str, tier: &str, seed: u64, out: &mut impl Write) {
                         if len > 9 && r.bool() { b[9] = counts[(k * 5 + 1) % counts.len()]; }
                         let h = hex_of(&b);
                         w!("rtulen req {h}"); w!("rtulen rsp {h}"); w!("tcplen req {h}"); w!("tcplen rsp {h}");
+                        if k % 4 == 0 { w!("speclen req 1 {h}"); w!("speclen rsp 1 {h}"); w!("speclen req 7 {h}"); w!("speclen rsp 7 {h}"); }
                         w!("#@ C15 {h} {}", r.next() >> 1);
                     }
                 }
@@ -804,6 +808,7 @@ pub fn generate(prop: &str, tier: &str, seed: u64, out: &mut impl Write) {
                 let n = b.len();
                 let bs = bits_str(b);
                 writeln!(out, "pack {bs} {t} {f}").unwrap();
+                if t % 3 == 0 { writeln!(out, "specpack {bs}").unwrap(); }
                 writeln!(out, "frombools {bs} {t} {f} 0,1,{},{},{},{},65535,65536,{},{},{},{},4294967296,{},2305843009213693952,{},4611686018427387904,9223372036854775807,9223372036854775808,{},18446744073709551614,18446744073709551615", n.saturating_sub(1), n, n + 1, n + 8, 65536 + n, 256 + n.saturating_sub(1), 65536 + n.saturating_sub(1), 131072 + n.saturating_sub(1), 4294967296usize + n.saturating_sub(1), 2305843009213693952usize + n.saturating_sub(1), 9223372036854775808usize + n.saturating_sub(1)).unwrap();
                 writeln!(out, "#@ C16 {bs} {t} {f}").unwrap();
             };
